@@ -251,24 +251,26 @@ def rule_components(chk, prog):
     if len(addn) != 2 or len(era) != 2:
         bad = "expected the seed node and the reached nodes to be added (2 sites) and erased from `remaining` (2 sites); found %d / %d" % (len(addn), len(era))
     else:
+        add_ids = [_stmt_id(fn, g, x) for x in addn]
+        hdr, body = g.loop_header(wl)
+        decls = {n.get("name"): n for n in fn.nodes() if n.get("k") == "VarDecl"}
         for a_ in addn:
             ai = _stmt_id(fn, g, a_)
-            # on every path through one round of the enclosing loop that adds a node, the node is erased from `remaining` too
-            pair = [e_ for e_ in era if abs(e_["l"] - a_["l"]) <= 4]
-            if not pair:
-                bad = bad or "a node is added to a component without being erased from `remaining` (it would start a second component later)"
+            x = norm(call_args(a_)[0]).replace("std::shared_ptr<dialect::Node>(", "").rstrip(")")
+            # erases that concern the same node: erase(x->id()) / erase(x.id()), or erase(it) where x was read through `it`
+            mine = []
+            for e_ in era:
+                ea = norm(call_args(e_)[0])
+                ini = norm(decls[x].get("init")) if x in decls and decls[x].get("init") is not None else ""
+                if ea.startswith(x + ".") or ea.startswith(x + "->") or (ea in decls and ea + "." in ini.replace("->", ".")) or (ea and ea + ".*" in ini):
+                    mine.append(_stmt_id(fn, g, e_))
+            if not mine:
+                bad = bad or "node `%s` is added to a component but never erased from `remaining`" % x
                 continue
-            ei = _stmt_id(fn, g, pair[0])
-            fwd = g.search([g.after(ai)], blocked=[ei], targets=[ai]) if pair[0]["l"] > a_["l"] else None
-            if pair[0]["l"] > a_["l"]:
-                hdr_targets = []
-                w = g.must_follow(ai, [ei], stop_ids=[])
-                # leaving the function or coming back to addNode without the erase
-                if g.search([g.after(ai)], blocked=[ei], targets=[_stmt_id(fn, g, x) for x in addn]) is not None:
-                    bad = bad or "a node can be added to a component and stay in `remaining`"
-            else:
-                if g.search("entry", blocked=[ei], targets=[ai]) is not None and a_ is addn[0]:
-                    bad = bad or "the seed node of a component is not removed from `remaining`"
+            before = g.search([(body, 0)], blocked=mine, targets=[ai]) is None
+            after = g.search([g.after(ai)], blocked=mine, targets=add_ids) is None and g.search([g.after(ai)], blocked=mine + add_ids, to_exit=True) is None
+            if not (before or after):
+                bad = bad or "node `%s` can be added to a component and stay in `remaining` (it would start a second component later)" % x
     (r.bad if bad else r.ok)("a placed node leaves `remaining`", fn.loc(addn[0]) if addn else fn.loc(wl), bad or "")
     inner = [n for n in walk(wl["body"]) if n.get("k") == "WhileStmt" and "bfs_queue.empty()" in norm(n.get("cond"))]
     r.count()
